@@ -11,7 +11,7 @@
 (*                             waits on it forever (import cycle hang)                       *)
 (*   BroadcastOnAbandon = FALSE  as the code has it: when add() fails the in-flight marker is  *)
 (*                             deleted WITHOUT cond.Broadcast(), so waiters are never woken    *)
-EXTENDS Integers, Sequences, FiniteSets, TLC
+EXTENDS Integers, Sequences, FiniteSets, TLC, Json
 
 CONSTANTS Files, G, OwnStackCheck, BroadcastOnAbandon, AllowCycles
 
@@ -91,6 +91,12 @@ Abandon(g) == /\ Running(g) /\ Top(g).st = "failed"
 
 Next == \E g \in G : CycleError(g) \/ Hit(g) \/ Claim(g) \/ Wait(g) \/ Descend(g) \/ Publish(g) \/ FailOwn(g) \/ Abandon(g)
 Spec == Init /\ [][Next]_vars /\ WF_vars(Next)
+
+\* scenarios for the trace recorder: every initial state (graph, failing files, roots) is printed once
+ScenNext == /\ \A g \in G : Len(stack[g]) = 1 /\ stack[g][1].st = "enter"
+            /\ stack' = [g \in G |-> <<>>] /\ UNCHANGED <<graph, bad, roots, cache, res, waiting>>
+            /\ PrintT(ToJson([spec |-> "ImportCache", graph |-> graph, bad |-> bad, roots |-> roots]))
+ScenSpec == Init /\ [][ScenNext]_vars
 
 \* ---- properties ------------------------------------------------------------------------------
 TypeOK == /\ \A f \in Files : cache[f] \in {"absent", "inflight", "done"}
